@@ -9,6 +9,7 @@
 #include <stdint.h>
 #include <string.h>
 #include <sys/epoll.h>
+#include <sys/select.h>
 #include <sys/socket.h>
 #include <sys/types.h>
 #include <unistd.h>
@@ -43,6 +44,9 @@ static ola::io::EPoller *p_cur_ep = NULL;
 static bool p_desc_order = false;
 // user-data pointer -> fd, learnt from the poller's own epoll_ctl(ADD/MOD) calls (no poller internals)
 static std::map<void*, int> p_ptr_fd;
+// virtual sleeping (timer cases): when set and nothing is ready, the timeout the poller passed is handed to this
+// hook (microseconds, negative = forever) instead of being slept for real
+static void (*p_vsleep)(long long us) = NULL;
 
 static int p_fd_of(void *ptr) {
   std::map<void*, int>::const_iterator it = p_ptr_fd.find(ptr);
@@ -313,9 +317,25 @@ string handle(const string &payload) {
 
 extern "C" int __real_epoll_wait(int epfd, struct epoll_event *events, int maxevents, int timeout);
 extern "C" int __wrap_epoll_wait(int epfd, struct epoll_event *events, int maxevents, int timeout) {
+  if (c16p::p_vsleep) {
+    int n0 = __real_epoll_wait(epfd, events, maxevents, 0);
+    if (n0 == 0) c16p::p_vsleep(timeout < 0 ? -1 : static_cast<long long>(timeout) * 1000);
+    return n0;
+  }
   int n = __real_epoll_wait(epfd, events, maxevents, timeout);
   if (n > 1 && c16p::p_cur_ep) std::sort(events, events + n, c16p::p_ev_lt());
   return n;
+}
+extern "C" int __real_select(int nfds, fd_set *r, fd_set *w, fd_set *x, struct timeval *tv);
+extern "C" int __wrap_select(int nfds, fd_set *r, fd_set *w, fd_set *x, struct timeval *tv) {
+  if (c16p::p_vsleep && tv) {
+    if (tv->tv_sec < 0 || tv->tv_usec < 0) { errno = EINVAL; return -1; }   // what the kernel answers
+    struct timeval zero = {0, 0};
+    int n0 = __real_select(nfds, r, w, x, &zero);
+    if (n0 == 0) c16p::p_vsleep(static_cast<long long>(tv->tv_sec) * 1000000LL + tv->tv_usec);
+    return n0;
+  }
+  return __real_select(nfds, r, w, x, tv);
 }
 extern "C" int __real_epoll_ctl(int epfd, int op, int fd, struct epoll_event *event);
 extern "C" int __wrap_epoll_ctl(int epfd, int op, int fd, struct epoll_event *event) {
